@@ -192,8 +192,8 @@ loop 1:
     invariant [none-yet] !r_ ==> forall|j: int| 0 <= j < i_ ==> !(out@[j] is SetTimer && out@[j]->SetTimer_0 == *timer)
     invariant [found] r_ ==> exists|j: int| 0 <= j < out@.len() && out@[j] is SetTimer && out@[j]->SetTimer_0 == *timer
     decreases it_@.len() - i_
-hint before `if matches!(c,`:
-    assert(*c == out@[i_ - 1]);
+hint loop 1 start:
+    assert(*it_@[i_ as int] == out@[i_ as int]);
 hint before `r_ = true; break;`:
     assert(out@[i_ - 1] is SetTimer && out@[i_ - 1]->SetTimer_0 == *timer);
 @*/
